@@ -40,7 +40,7 @@ CHECKS = {
          "Route designation rule left open by the statement: Route scopes only contain services where all readings agree.", "§3 C10"),
  "C11": (MC, "explicit-state breadth-first search over the real ConnectionSet methods with representation-level state hashing; abstract bitset model as oracle on every transition",
          "States are real ConnectionSet values reached by generator steps and Union/Intersection/Subtract with every previously reached state as operand; after every transition denotation, non-modification, non-aliasing, canonical form and all predicates are compared with a bitset model over protocol x port cells.",
-         "Port cells from the alphabet's constants; named ports only through the clause the statement makes.", "§3 C11"),
+         "Port cells from the alphabet's constants; named ports are opaque points: a name is a member of a set that holds the name or all port numbers of its protocol (the statement's containment clause), checked through Union, Intersection, Subtract, containment and equality; AddConnection steps start from the empty set, the AllowAll form and a full protocol.", "§3 C11"),
  "C12": (EXPL, "exhaustive single (thorough: double) structural mutation of every node of a seed corpus; every mutant through list, list+exposure, diff both ways and eval in crash-isolated workers",
          "Every drop/null/empty/retype/value mutation of every node of one valid manifest per kind is analysed, plus valid documents with unsupported API fields (unmutated and mutated) and strided valid worlds of the exposure / ANP / ingress alphabets through every command and format; any panic, worker death or watchdog expiry is a violation.",
          "Mutation alphabet and seed corpus are bounded; byte-level mutations only in thorough tier.", "§3 C12"),
